@@ -20,6 +20,8 @@ import (
 	"sort"
 	"strings"
 	"sync"
+	"sync/atomic"
+	"syscall"
 	"time"
 
 	"github.com/olareg/olareg"
@@ -146,7 +148,7 @@ func main() {
 	r.Require("subjects_compared", int64(n*3))
 	r.Require("crash_images_checked", int64(n/3))
 	r.RequireDistinct("layout_classes", 7)
-	r.Finish("generated legacy layouts (0-3 subjects x 0-4 referrers; fallback index accurate / stale size / stale artifactType / stale annotations / entry for a missing manifest / mixed subject / non-referrer entry; dangling fallback tag; sha256 and sha512 subjects; look-alike tags; shuffled index.json) opened by a writable directory store, by memory-over-directory and by a read-only memory-over-directory (which converts in memory); classes also: one referrer listed twice, index referrers with and without a wrong artifactType, an ordinary multi-platform index under a digest-shaped tag; referrers, other tags, content and marker checked after the first open, after a second open and on every crash image of the conversion; the first request runs under the stable-stall watch; a case is one layout x store, distinct = fallback index classes", "layouts", "layout_classes")
+	r.Finish("generated legacy layouts (0-3 subjects x 0-4 referrers; fallback index accurate / stale size / stale artifactType / stale annotations / entry for a missing manifest / mixed subject / non-referrer entry; dangling fallback tag; sha256 and sha512 subjects; look-alike tags; shuffled index.json) opened by a writable directory store, by memory-over-directory and by a read-only memory-over-directory (which converts in memory); classes also: one referrer listed twice, index referrers with and without a wrong artifactType, an ordinary multi-platform index under a digest-shaped tag; referrers, other tags, content and marker checked after the first open, after a second open, on every crash image of the conversion, and after conversions in which the k-th mutating call failed with an I/O error (then reopened on healthy storage); the first request runs under the stable-stall watch; a case is one layout x store, distinct = fallback index classes", "layouts", "layout_classes")
 }
 
 func one(r *vh.Run, i int) {
@@ -189,6 +191,10 @@ func one(r *vh.Run, i int) {
 			copyTree(root, d)
 			images = append(images, d)
 		})
+	}
+	pristine := filepath.Join(base, "pristine")
+	if kind == vh.Dir && !crashOnly {
+		copyTree(root, pristine) // the layout as generated, for the failing-call series below
 	}
 	srv := open().(*olareg.Server)
 	var probs []string
@@ -262,6 +268,62 @@ func one(r *vh.Run, i int) {
 		}
 		if len(p3) > 0 {
 			break
+		}
+	}
+	// interrupted by a failing call instead of a crash: the k-th mutating call of the conversion returns an I/O error
+	// (the conversion gives up, requests fail), the server is closed; a new server on that directory, with healthy
+	// storage, gives the full result
+	if kind == vh.Dir && !crashOnly && len(imgs) > 0 && (i/3)%2 == 0 {
+		nmut := len(imgs)
+		if nmut > 14 {
+			nmut = 14
+		}
+		for k := 0; k < nmut; k++ {
+			d := filepath.Join(base, fmt.Sprintf("flt%02d", k))
+			copyTree(pristine, d)
+			var cnt atomic.Int64
+			off := vfs.RegisterFault(d, func(ev vfs.Event) error {
+				if ev.Mutating && cnt.Add(1) == int64(k+1) {
+					return syscall.EIO
+				}
+				return nil
+			})
+			s4 := vh.New(vh.Conf(vh.Dir, d, vh.Neutral))
+			r4 := vh.Watch(func() {
+				vh.Do(s4, vh.Req{Method: "GET", URL: "/v2/leg/tags/list"})
+				for _, sj := range L.Subjects {
+					vh.Do(s4, vh.Req{Method: "GET", URL: "/v2/leg/referrers/" + sj})
+				}
+			}, 2*time.Second, 60*time.Second)
+			off()
+			if os.Getenv("VERIF_DEBUG") != "" {
+				ib, _ := os.ReadFile(filepath.Join(d, "leg", "index.json"))
+				fmt.Fprintf(os.Stderr, "DEBUG layout %d k=%d cnt=%d marker=%v kinds=%v\n", i/3, k, cnt.Load(), strings.Contains(string(ib), "referrer.convert"), L.Kinds)
+			}
+			if r4.Stalled {
+				wit["blocked_goroutines"] = r4.Desc
+				viol("conversion-hangs", fmt.Sprintf("a conversion whose mutating call %d fails with an I/O error hangs [%s]", k+1, c.desc))
+				break
+			}
+			if r4.Done {
+				_ = s4.Close()
+			}
+			s5 := vh.New(vh.Conf(vh.Dir, d, vh.Neutral))
+			var p5 []string
+			r5 := vh.Watch(func() {
+				p5 = verifyServer(c, s5, fmt.Sprintf("after a conversion whose mutating call %d failed with an I/O error, reopened", k+1))
+			}, 2*time.Second, 60*time.Second)
+			r.Count("failed_call_conversions_checked", 1)
+			for _, p := range p5 {
+				viol("conversion-failed-call:"+classify(p), p+" ["+c.desc+"]")
+			}
+			if r5.Done {
+				_ = s5.Close()
+			}
+			vh.RemoveAll(d)
+			if len(p5) > 0 || r5.Stalled {
+				break
+			}
 		}
 	}
 	if i < 3 {
